@@ -15,17 +15,139 @@ type Pred struct {
 	Match func(a Atom) (holdsWhenAtom bool, ok bool)
 }
 
-// licensedSucc returns the successor indices of b (0=true, 1=false edge of the
-// terminating If) on which P holds.
-func licensedSucc(b *ssa.BasicBlock, p Pred) []int {
+// bstate is a CFG position refined by the predecessor the block was entered from. The
+// refinement matters for blocks whose terminating If tests a phi defined in the same block
+// (how go/ssa lowers a short-circuit expression used as a value, e.g. the case expressions of
+// a tagless switch): knowing the incoming edge tells which operand the phi carries.
+type bstate struct {
+	b    *ssa.BasicBlock
+	from int // index into b.Preds, or -1 when irrelevant
+}
+
+func termIf(b *ssa.BasicBlock) *ssa.If {
 	if len(b.Instrs) == 0 {
 		return nil
 	}
-	ifi, ok := b.Instrs[len(b.Instrs)-1].(*ssa.If)
+	ifi, _ := b.Instrs[len(b.Instrs)-1].(*ssa.If)
+	return ifi
+}
+
+// phiCond reports whether b ends in an If on a phi defined in b itself.
+func phiCond(b *ssa.BasicBlock) *ssa.Phi {
+	ifi := termIf(b)
+	if ifi == nil {
+		return nil
+	}
+	v := ifi.Cond
+	neg := false
+	for {
+		if u, ok := v.(*ssa.UnOp); ok && u.Op == token.NOT {
+			v = u.X
+			neg = !neg
+			continue
+		}
+		break
+	}
+	_ = neg
+	if p, ok := v.(*ssa.Phi); ok && p.Block() == b {
+		return p
+	}
+	return nil
+}
+
+// effCond returns the condition tested at the end of s.b, specialised to the incoming edge.
+func effCond(s bstate) (cond ssa.Value, neg bool, ok bool) {
+	ifi := termIf(s.b)
+	if ifi == nil {
+		return nil, false, false
+	}
+	v := ifi.Cond
+	if s.from >= 0 {
+		for {
+			if u, isU := v.(*ssa.UnOp); isU && u.Op == token.NOT {
+				v = u.X
+				neg = !neg
+				continue
+			}
+			break
+		}
+		if p, isP := v.(*ssa.Phi); isP && p.Block() == s.b && s.from < len(p.Edges) {
+			return p.Edges[s.from], neg, true
+		}
+		return ifi.Cond, false, true
+	}
+	return v, false, true
+}
+
+// succStates returns, for every feasible successor of s, its index and the refined state.
+func succStates(s bstate) (idx []int, out []bstate) {
+	cond, neg, ok := effCond(s)
+	for i, nx := range s.b.Succs {
+		if ok {
+			if c, isC := constBool(cond); isC {
+				val := c != neg
+				if (i == 0) != val {
+					continue // infeasible edge for this incoming value
+				}
+			}
+		}
+		ns := bstate{nx, -1}
+		if phiCond(nx) != nil {
+			for k, p := range nx.Preds {
+				if p == s.b {
+					ns.from = k
+					break
+				}
+			}
+		}
+		idx = append(idx, i)
+		out = append(out, ns)
+	}
+	return
+}
+
+// licensedFrom returns the successor indices of s on which pred holds.
+func licensedFrom(s bstate, p Pred) []int {
+	cond, neg, ok := effCond(s)
 	if !ok {
 		return nil
 	}
-	return licensedByCond(ifi.Cond, p, 0)
+	if _, isC := constBool(cond); isC {
+		return nil
+	}
+	lic := licensedByCond(cond, p, 0)
+	if neg {
+		for i := range lic {
+			lic[i] = 1 - lic[i]
+		}
+	}
+	return lic
+}
+
+// licensedSucc: unrefined variant (used where no path context exists).
+func licensedSucc(b *ssa.BasicBlock, p Pred) []int {
+	if phiCond(b) != nil {
+		// union over incoming edges is not sound for "licensed"; report only if all agree
+		var common []int
+		for k := range b.Preds {
+			l := licensedFrom(bstate{b, k}, p)
+			if k == 0 {
+				common = l
+				continue
+			}
+			var keep []int
+			for _, x := range common {
+				for _, y := range l {
+					if x == y {
+						keep = append(keep, x)
+					}
+				}
+			}
+			common = keep
+		}
+		return common
+	}
+	return licensedFrom(bstate{b, -1}, p)
 }
 
 func licensedByCond(cond ssa.Value, p Pred, depth int) []int {
@@ -48,52 +170,73 @@ type GuardResult struct {
 	Edges   int      // number of licensing edges found
 }
 
+func countLicensing(fn *ssa.Function, pred Pred) int {
+	n := 0
+	for _, b := range fn.Blocks {
+		if phiCond(b) != nil {
+			seen := map[int]bool{}
+			for k := range b.Preds {
+				for _, l := range licensedFrom(bstate{b, k}, pred) {
+					if !seen[l] {
+						seen[l] = true
+					}
+				}
+			}
+			n += len(seen)
+			continue
+		}
+		n += len(licensedFrom(bstate{b, -1}, pred))
+	}
+	return n
+}
+
 // Guarded reports whether every path from fn's entry to the target instruction
 // passes through an edge on which pred holds.
 func Guarded(target ssa.Instruction, pred Pred) GuardResult {
 	fn := target.Parent()
 	tb := target.Block()
-	type key = *ssa.BasicBlock
-	prev := map[key]key{}
-	seen := map[key]bool{fn.Blocks[0]: true}
-	queue := []key{fn.Blocks[0]}
-	edges := 0
-	for _, b := range fn.Blocks {
-		edges += len(licensedSucc(b, pred))
-	}
-	found := false
-	for len(queue) > 0 && !found {
-		b := queue[0]
+	start := bstate{fn.Blocks[0], -1}
+	prev := map[bstate]bstate{}
+	seen := map[bstate]bool{start: true}
+	queue := []bstate{start}
+	edges := countLicensing(fn, pred)
+	var hit *bstate
+	for len(queue) > 0 && hit == nil {
+		s := queue[0]
 		queue = queue[1:]
-		if b == tb {
-			found = true
+		if s.b == tb {
+			x := s
+			hit = &x
 			break
 		}
-		lic := licensedSucc(b, pred)
-		for i, s := range b.Succs {
+		lic := licensedFrom(s, pred)
+		idx, nxt := succStates(s)
+		for k, ns := range nxt {
 			skip := false
 			for _, l := range lic {
-				if l == i {
+				if l == idx[k] {
 					skip = true
 				}
 			}
-			if skip || seen[s] {
+			if skip || seen[ns] {
 				continue
 			}
-			seen[s] = true
-			prev[s] = b
-			queue = append(queue, s)
+			seen[ns] = true
+			prev[ns] = s
+			queue = append(queue, ns)
 		}
 	}
-	if !found {
+	if hit == nil {
 		return GuardResult{Guarded: true, Edges: edges}
 	}
 	var path []string
-	for b := tb; b != nil; b = prev[b] {
-		path = append([]string{fmt.Sprintf("block %d (%s)", b.Index, b.Comment)}, path...)
-		if b == fn.Blocks[0] {
+	for x := *hit; ; {
+		path = append([]string{fmt.Sprintf("block %d (%s)", x.b.Index, x.b.Comment)}, path...)
+		p, ok := prev[x]
+		if !ok {
 			break
 		}
+		x = p
 	}
 	return GuardResult{Guarded: false, Witness: path, Edges: edges}
 }
@@ -219,7 +362,9 @@ func Reach(fn *ssa.Function, from ssa.Instruction, stop func(ssa.Instruction) bo
 			in := s.b.Instrs[i]
 			if goal(in) {
 				var path []string
-				for b := s.b; b != nil; b = prev[b] {
+				onPath := map[*ssa.BasicBlock]bool{}
+				for b := s.b; b != nil && !onPath[b]; b = prev[b] {
+					onPath[b] = true
 					path = append([]string{fmt.Sprintf("block %d (%s)", b.Index, b.Comment)}, path...)
 					if _, ok := prev[b]; !ok {
 						break
@@ -304,11 +449,11 @@ func Dominates(a, b ssa.Instruction) bool {
 // (b) does not execute an instruction matching effect. It returns ok and a witness.
 func MustFollow(fn *ssa.Function, preds []Pred, effect func(ssa.Instruction) bool) (bool, []string) {
 	type state struct {
-		b     *ssa.BasicBlock
+		s     bstate
 		flags uint32
 	}
 	full := uint32(1)<<uint(len(preds)) - 1
-	start := state{fn.Blocks[0], 0}
+	start := state{bstate{fn.Blocks[0], -1}, 0}
 	seen := map[state]bool{start: true}
 	prev := map[state]state{}
 	queue := []state{start}
@@ -316,7 +461,7 @@ func MustFollow(fn *ssa.Function, preds []Pred, effect func(ssa.Instruction) boo
 		s := queue[0]
 		queue = queue[1:]
 		hit := false
-		for _, in := range s.b.Instrs {
+		for _, in := range s.s.b.Instrs {
 			if effect(in) {
 				hit = true
 				break
@@ -324,7 +469,7 @@ func MustFollow(fn *ssa.Function, preds []Pred, effect func(ssa.Instruction) boo
 			if IsReturn(in) && s.flags == full {
 				var path []string
 				for x := s; ; {
-					path = append([]string{fmt.Sprintf("block %d (%s) flags=%b", x.b.Index, x.b.Comment, x.flags)}, path...)
+					path = append([]string{fmt.Sprintf("block %d (%s) flags=%b", x.s.b.Index, x.s.b.Comment, x.flags)}, path...)
 					p, ok := prev[x]
 					if !ok {
 						break
@@ -337,10 +482,12 @@ func MustFollow(fn *ssa.Function, preds []Pred, effect func(ssa.Instruction) boo
 		if hit {
 			continue
 		}
-		for i, nx := range s.b.Succs {
+		idx, nxt := succStates(s.s)
+		for k, nb := range nxt {
+			i := idx[k]
 			fl := s.flags
 			for pi, p := range preds {
-				lic := licensedSucc(s.b, p)
+				lic := licensedFrom(s.s, p)
 				if len(lic) == 0 {
 					continue
 				}
@@ -356,7 +503,7 @@ func MustFollow(fn *ssa.Function, preds []Pred, effect func(ssa.Instruction) boo
 					fl &^= 1 << uint(pi)
 				}
 			}
-			ns := state{nx, fl}
+			ns := state{nb, fl}
 			if !seen[ns] {
 				seen[ns] = true
 				prev[ns] = s
@@ -369,12 +516,7 @@ func MustFollow(fn *ssa.Function, preds []Pred, effect func(ssa.Instruction) boo
 
 // HasLicensingEdge reports whether fn contains at least one edge establishing pred.
 func HasLicensingEdge(fn *ssa.Function, pred Pred) bool {
-	for _, b := range fn.Blocks {
-		if len(licensedSucc(b, pred)) > 0 {
-			return true
-		}
-	}
-	return false
+	return countLicensing(fn, pred) > 0
 }
 
 // IsBuiltinCall reports whether in is a call of the named builtin; returns its args.
